@@ -59,7 +59,7 @@ def spelled(titles, si, r, c, k):
 
 BAD_ROWS = ['x', '1.0', ' 7', '+7', '1_0', '\u0667', '\uff11', '0', '-1', '1e1', '0x1', 'A', '7 ', '\n3']
 BAD_COLS = ['1', 'A1', 'a-b', ' ', 'ZZZZ', 'AAAA', '\u0410']
-BAD_TITLES = ['no such sheet', '', ' ', 7, -1, 99]
+BAD_TITLES = ['no such sheet', '', ' ', 7, -1, 99, True, False, 1.0, 0.0, None, (0,)]
 
 
 def probe_malformed(ctx, ex, titles, case0):
